@@ -104,6 +104,8 @@ func fixIns(ins *x86asm.Inst, pos int, block []byte, blockSize int,
 	}
 	offset := pos + ins.PCRelOff
 	addr := bytecode.DecodeRelativeAddr(ins, block, offset)
+	// bytes that follow the relative address (immediate operands), they must be kept
+	tail := block[offset+ins.PCRel : pos+ins.Len]
 
 	// TODO 待实现
 	//if ins.PCRel <= 1 {
@@ -128,7 +130,7 @@ func fixIns(ins *x86asm.Inst, pos int, block []byte, blockSize int,
 		result := bytecode.EncodeAddress(block[pos:offset],
 			block[offset:offset+ins.PCRel], ins.PCRel, addr, (int)(from)-(int)(trampoline))
 		if len(result) > ins.PCRel {
-			return result
+			return append(result, tail...)
 		}
 	} else {
 		if ins.Op.String() == bytecode.CallInsName {
